@@ -67,6 +67,8 @@ for _n in range(0, 7):
                        "a go call of a variadic script function with %d parameters" % _n))
         EXPECT.append(("c = make(chan interface, 1)\nfunc f(%s) { c <- [%s] }\ngo f([%s]...)\n(<-c)" % (_params, _params, _args), _want,
                        "a go call with a spread into %d parameters" % _n))
+EXPECT.append(("mid = make(chan interface); out = make(chan interface, 1)\nfunc relay() { defer func() { close(out) }(); for { mid <- 1 } }\nclose(mid)\ngo relay()\nr = []; for x in out { r += x }; r", "[]",
+               "a stage whose send hits a closed channel fails with an error: its deferred close still runs and the consumer's for-in ends"))
 EXPECT.append(("c = make(chan interface, 3)\ngo hsend(c, 1)\ngo hsend(c, 2)\ngo hsend(c, 3)\na = (<-c) + (<-c) + (<-c)\na", "i:6", "go calls of a Go function deliver their arguments"))
 
 
@@ -124,11 +126,13 @@ def run(tier, seed, replay=None):
                 break
         # directed expectations on the implementation
         sf = os.path.join(scratch, "expect.json")
-        json.dump([e[0] for e in EXPECT], open(sf, "w"))
+        # every directed program twice: under a context (RunContext) and through vm.Run, which has none (ctx.Done() is nil)
+        expect = EXPECT + [("#plain\n" + e[0], e[1], e[2] + " [run with vm.Run, no context]") for e in EXPECT]
+        json.dump([e[0] for e in expect], open(sf, "w"))
         common.sh([harness, "interp", "-srcfile", sf, "-out", scratch], env=common.GOENV, timeout=600)
         drecs = [json.loads(l) for l in open(os.path.join(scratch, "directed.jsonl"))]
         nexp = 0
-        for e, rec in zip(EXPECT, drecs):
+        for e, rec in zip(expect, drecs):
             got = rec["impl"].get("result") if rec["impl"]["status"] == "ok" else rec["impl"]["status"] + ":" + str(rec["impl"].get("msg"))
             if str(got) != e[1]:
                 nexp += 1
